@@ -1,7 +1,7 @@
 SPECIFICATION Spec
 CONSTANTS
   Configs <- QuickConfigs
-  MaxMeta = 3
+  MaxMeta = 4
   MaxDemes = 5
   MaxOffer = 2
   MaxLocal = 2
